@@ -83,7 +83,7 @@ class ClassInfo(object):
 
 
 class ModuleInfo(object):
-    def __init__(self, name, path, relpath, source):
+    def __init__(self, name, path, relpath, source, raw_trees=None):
         self.name = name
         self.path = path
         self.relpath = relpath
@@ -91,8 +91,9 @@ class ModuleInfo(object):
         self.tree = ast.parse(source, filename=path)
         self.normalized = {}
         if os.environ.get("LASIO_SA_NORMALIZE", "1") != "0":
-            from .normalize import normalize
-            self.normalized = normalize(self.tree)
+            from .normalize import normalize, extern_helpers
+            ext = extern_helpers(self.tree, name, raw_trees or {})
+            self.normalized = normalize(self.tree, ext)
         self.lines = source.splitlines()
         # alias -> ("module", modname) | ("name", modname, attr)
         self.imports = {}
@@ -114,17 +115,31 @@ class Project(object):
         self.functions = {}
         self.classes = {}
         h = hashlib.sha256()
+        sources = {}
         for fn in sorted(os.listdir(self.pkg)):
             if not fn.endswith(".py"):
                 continue
             path = os.path.join(self.pkg, fn)
             with open(path, encoding="utf-8") as f:
-                src = f.read()
+                sources[fn] = (path, f.read())
+        # raw trees of every module (private constants propagated) so that private helpers imported from another module of the
+        # package can be inlined where they are used
+        raw_trees = {}
+        if os.environ.get("LASIO_SA_NORMALIZE", "1") != "0":
+            from .normalize import propagate_constants
+            for fn, (path, src) in sources.items():
+                try:
+                    t = ast.parse(src, filename=path)
+                except SyntaxError as e:
+                    raise AnalysisError("cannot parse %s: %s" % (path, e))
+                propagate_constants(t)
+                raw_trees[fn[:-3]] = t
+        for fn, (path, src) in sorted(sources.items()):
             h.update(fn.encode())
             h.update(src.encode("utf-8"))
             name = fn[:-3]
             try:
-                mod = ModuleInfo(name, path, "lasio/" + fn, src)
+                mod = ModuleInfo(name, path, "lasio/" + fn, src, raw_trees)
             except SyntaxError as e:
                 raise AnalysisError("cannot parse %s: %s" % (path, e))
             self.modules[name] = mod
